@@ -52,6 +52,7 @@ pub use target_arch::{interval, sleep, spawn, Instant, Interval};
 pub mod verif_hooks {
     pub use crate::cmd::{LocalSwarmCmd, NetworkSwarmCmd};
     pub use crate::driver::verif_hooks::set_store_overrides;
+    pub use crate::driver::verif_hooks::set_local_cmd_channel_size;
     pub use crate::record_store::{ClientRecordStore, NodeRecordStoreConfig};
     pub use crate::record_store_api::UnifiedRecordStore;
     pub use crate::replication_fetcher::verif_hooks::VerifFetcher;
